@@ -495,7 +495,20 @@ func (c *Canon) call(x *ssa.Call) string {
 	if callee != nil {
 		name = FuncName(callee)
 		if rn := RoleName(callee); rn != "" {
+			// a role helper is rendered with the data it asks about only: the receiver and plain
+			// flags/numbers are left out, so that turning the method into a function (or passing
+			// a precomputed flag along) does not change the form
 			name = "@" + rn
+			args = args[:0]
+			for i, a := range cc.Args {
+				if i == 0 && callee.Signature.Recv() != nil {
+					continue
+				}
+				if _, basic := a.Type().Underlying().(*types.Basic); basic {
+					continue
+				}
+				args = append(args, c.Of(a))
+			}
 		}
 	} else if b, ok := cc.Value.(*ssa.Builtin); ok {
 		name = b.Name()
